@@ -16,7 +16,16 @@ Section Filters.
 
 Variables pattern path text block : Type.
 
-(** FilterPattern::matches — glob matching of the (normalized) source path; oracle. *)
+(** FilterPattern::matches — glob matching; oracle.
+
+    WHICH PATH: at both levels the decision function receives the same value, `work_item.data.source()`: the
+    source path as collected by WorkerTree::collect_work, normalized, relative to the working directory
+    (`project/src/a.lua` for `Options::new("project")` as well as for `Options::new("project/src")`).  It does
+    not depend on where the configuration was read from (in memory, `.darklua.json` of the working directory,
+    `with_configuration_at` anywhere): `Configuration::location` is only used by rules that read files.  In
+    this model that is the single argument [f] of [process_file], handed unchanged to the top-level
+    [should_apply] and to every rule's [should_apply]; the check runs every configuration location and
+    compares both levels with the glob model applied to that collected path. *)
 Variable matches : pattern -> path -> bool.
 
 (** Parser::parse, Worker::bundle (identity when no `bundle` is configured) and
